@@ -108,7 +108,9 @@ def run(rep: Report, ctx: Any) -> str:
                       "value handed to a container operation (iteration, len, `in`, subscription) has no scalar type (bool / int / "
                       "float) among its abstract types unless an isinstance test excludes it on every way there; a document value that "
                       "is hashed (looked up in / stored into a dict or set) has no unhashable type (list / dict / set / untyped Any) "
-                      "among its abstract types unless a try around the operation catches TypeError")
+                      "among its abstract types unless a try around the operation catches TypeError; a document value handed to a "
+                      "parameter declared as a (non-optional) container cannot be None: an absent optional section has been replaced by an "
+                      "empty container or tested on every way to the call")
     rep.rule("R06.3", "every call through a dynamically imported property template is guarded by `{% if alias.macro %}` or every "
                       "template the alias can denote defines the macro")
     rep.rule("R06.4", "every while loop and every recursive cycle of the call graph has one of five ranking arguments, decided on the "
@@ -288,6 +290,9 @@ def run(rep: Report, ctx: Any) -> str:
 
     # (v) hash operations on document values that may be unhashable
     _hash_operations(rep, ctx, [f for f in funcs if not f.module.name.startswith(f"{PKG}.schema") or f in validators], validators)
+
+    # (vi) optional sections of the document handed on where a container is expected
+    _none_arguments(rep, ctx, [f for f in funcs if not f.module.name.startswith(f"{PKG}.schema")])
 
     # ------------------------------------------------------------------------------------------------- R06.3
     rep.floor("dispatch_sites", len(ji.dispatches), 40)
@@ -2489,6 +2494,100 @@ def _hash_operations(rep: Report, ctx: Any, funcs: list[FuncInfo], validators: l
                           f"{exc} `unhashable type` instead of a diagnostic", where(f, node), lhs=sorted(av.types)[:8],
                           rhs="a hashable type, or an isinstance test on every way to the operation, or a try that catches TypeError")
     rep.floor("hash_operations_on_document_values", n_ops, 10)
+
+
+_CONTAINER_ANNOTATIONS = ("dict[", "Dict[", "list[", "List[", "set[", "Set[", "Mapping[", "MutableMapping[", "Sequence[", "Iterable[", "Collection[",
+                          "tuple[", "Tuple[")
+
+
+def _container_annotation(ann: ast.AST | None) -> bool:
+    """the parameter is declared as a container and not as optional"""
+    txt = norm(ann).strip("'\"") if ann is not None else ""
+    return bool(txt) and (txt.startswith(_CONTAINER_ANNOTATIONS) or txt in ("dict", "list", "set")) and "None" not in txt and "Optional" not in txt
+
+
+def _may_be_none(it: Any, f: FuncInfo, fl: "_Flow", lc: Any, e: ast.AST | None, st: ast.AST | None, seen: frozenset[str] = frozenset(),
+                 depth: int = 0) -> bool:
+    """can the expression e, evaluated in the statement st of f, be None.  `a or b` hands on only truthy values of a, `a and b` any
+    falsy value of a; a name, attribute, subscript or call can be None when the interpreter has None among its abstract types and no
+    test on the same expression (truthiness, `is not None`; in the statement itself or on every path that leads to it, looking
+    through boolean locals) rules it out; a local that is only assigned is as good as what it is assigned from, where it is assigned."""
+    from ..astutil import stmt_of
+
+    if e is None or depth > 6:
+        return False
+    if isinstance(e, ast.Constant):
+        return e.value is None
+    if isinstance(e, ast.BoolOp):
+        if isinstance(e.op, ast.Or):
+            return _may_be_none(it, f, fl, lc, e.values[-1], st, seen, depth + 1)
+        return any(_may_be_none(it, f, fl, lc, v, st, seen, depth + 1) for v in e.values)
+    if isinstance(e, ast.IfExp):
+        return _may_be_none(it, f, fl, lc, e.body, st, seen, depth + 1) or _may_be_none(it, f, fl, lc, e.orelse, st, seen, depth + 1)
+    if isinstance(e, (ast.NamedExpr, ast.Await)):
+        return _may_be_none(it, f, fl, lc, e.value, st, seen, depth + 1)
+    if not isinstance(e, (ast.Name, ast.Attribute, ast.Subscript, ast.Call)):
+        return False
+    av = it.node_av.get(id(e))
+    if av is None or "None" not in av.types:
+        return False
+    text = norm(e)
+
+    def not_none(test: ast.expr, outcome: bool) -> bool:
+        return any(fact in (("truthy", text, True), ("differs", text, "None")) for atom, val in _implied_deep(test, outcome, lc)
+                   for fact in _atom_facts(atom, val))
+
+    if any(not_none(t, v) for t, v in _guards_in_statement(st, e)):
+        return False
+    if st is not None and not fl.reach([(_ENTRY, None, b) for b, _ in fl.out(_ENTRY)], [st],
+                                       stop_edge=lambda a, lab: lab is not None and isinstance(a, (ast.If, ast.While)) and not_none(a.test, lab)):
+        return False
+    if isinstance(e, ast.Name) and e.id not in seen and e.id not in [p.arg for p in f.params]:
+        defs = lc.defs.get(e.id, [])
+        if defs and all(k == "assign" and v is not None for k, _, v in defs):
+            return any(_may_be_none(it, f, fl, lc, v, s if isinstance(s, ast.stmt) else stmt_of(f.node, s), seen | {e.id}, depth + 1)
+                       for _, s, v in defs)
+    return True
+
+
+def _none_arguments(rep: Report, ctx: Any, funcs: list[FuncInfo]) -> None:
+    """R06.2 (vi).  Instances: every argument that is document-derived (abstract interpreter) and is received by a parameter of a function
+    of the repository declared as a container (dict[..], list[..], set[..], Mapping, Sequence, ...) and not as optional - the callee,
+    or a function it hands the value on to, applies container operations and methods to it.  Obligation: the argument cannot be None
+    (`_may_be_none`): an optional section of the document has been replaced by an empty container or tested before it is handed on."""
+    from ..astutil import Locals, role_anon, stmt_of
+
+    ix = ctx.py
+    it, _ = ctx.flow
+    n_args = 0
+    for f in funcs:
+        fl: _Flow | None = None
+        lc = None
+        for c in _own_nodes(f.node):
+            if not isinstance(c, ast.Call):
+                continue
+            hs = _callees(ix, it, f, c)
+            if not hs:
+                continue
+            given: list[tuple[int | str, ast.expr]] = [(i, a) for i, a in enumerate(c.args) if not isinstance(a, ast.Starred)]
+            given += [(k.arg, k.value) for k in c.keywords if k.arg]
+            for pos, a in given:
+                pars = [(h, par) for h in hs if (p := _param_for(h, c, pos)) is not None for par in h.params if par.arg == p]
+                if not pars or not all(_container_annotation(par.annotation) for _, par in pars):
+                    continue
+                if not any((x := it.node_av.get(id(w))) is not None and x.labels & {RAW, RAW_NONSTR, UNKNOWN} for w in _alternatives(a)):
+                    continue
+                if fl is None:
+                    fl, lc = _Flow(f, ix), Locals(f.node)
+                n_args += 1
+                h, par = pars[0]
+                ok = not _may_be_none(it, f, fl, lc, a, stmt_of(f.node, c))
+                rep.check(ok, "R06.2", f"{short(f)}::{h.name}({par.arg}={role_anon(a, f.node)[:50]})",
+                          f"`{norm(a)[:60]}`, a value taken from the document that may be None (an optional section that is absent), is handed to "
+                          f"`{h.name}` as `{par.arg}: {norm(par.annotation)[:40]}` without a fallback or a test: AttributeError / TypeError on None "
+                          "instead of a diagnostic where the callee uses it", where(f, c), lhs=norm(a)[:60],
+                          rhs="an empty container instead of None (`x or {}`), or a test on every way to the call")
+    rep.floor("document_arguments_to_container_parameters", n_args, 6)
 
 
 # ---------------------------------------------------------------------------------------------------------------------------------
